@@ -683,7 +683,51 @@ def rule_assignment_siblings(run):
     _roles.run_assignment_siblings_rule(run, "F-ROLE.siblings")
 
 
-RULES = [rule_fdef, rule_leaf, rule_order, rule_state_check, rule_arms, rule_cleanup, rule_writeback, rule_state_root, rule_refspec_reads, rule_names, rule_assignment_siblings]
+def rule_blocks(run):
+    from . import c03
+    c03.rule_all_open_blocks(run)    # alias markers / definitions reach every path
+
+
+def rule_always_locality(run):
+    from . import c07
+    c07.rule_local(run)              # temporaries of an always block are replaced everywhere, incl. index operands
+
+
+def rule_backend_empty(run):
+    run.begin(
+        "C08.empty",
+        "the back end drops a block only when it contains nothing but (nested) empty blocks - a block holding a real "
+        "statement next to an empty nested block is emitted (abstract evaluation of vhdl.CodeBlock.empty)",
+        floor=5,
+    )
+    from ..absint import Interp, Reject
+    vh = run.idx.mod("cohdl/_compiler/backend/vhdl/_vhdl_repr.py")
+    f = vh.func("CodeBlock.empty")
+
+    class CodeBlock:
+        def __init__(self, stmts):
+            self._stmts = stmts
+
+        def empty(self):
+            return Interp(vh, dict(prims)).call_function("CodeBlock.empty", self)
+
+    class Stmt:
+        pass
+
+    prims = {"isinstance": lambda v, t: isinstance(v, t if isinstance(t, (type, tuple)) else ()), "CodeBlock": CodeBlock, "len": len, "all": all, "any": any}
+    E = lambda: CodeBlock([])
+    for name, blk, exp in (("[]", CodeBlock([]), True), ("[[]]", CodeBlock([E()]), True), ("[[], []]", CodeBlock([E(), E()]), True), ("[stmt]", CodeBlock([Stmt()]), False),
+                           ("[[], stmt]", CodeBlock([E(), Stmt()]), False), ("[stmt, []]", CodeBlock([Stmt(), E()]), False), ("[[stmt]]", CodeBlock([CodeBlock([Stmt()])]), False),
+                           ("[[], [stmt]]", CodeBlock([E(), CodeBlock([Stmt()])]), False)):
+        try:
+            got = blk.empty()
+        except Reject as e:
+            got = f"rejected: {e}"
+        run.ob(got is exp, "vhdl.CodeBlock.empty", file=vh.rel, line=f.node.lineno, detail=name, expected=str(exp), found=str(got))
+    run.end()
+
+
+RULES = [rule_fdef, rule_leaf, rule_order, rule_state_check, rule_arms, rule_cleanup, rule_writeback, rule_state_root, rule_refspec_reads, rule_names, rule_assignment_siblings, rule_blocks, rule_always_locality, rule_backend_empty]
 
 LEVEL = "other"
 EXPLANATION = (
